@@ -37,6 +37,7 @@ type recvRig struct {
 	stop   chan bool
 	done   chan bool
 	client *nethttp.Client
+	made   []sts.GateKeeper // every gate keeper the server ever created (one that the server forgets still has goroutines)
 }
 
 func newRecvRig(sources, keys []string, prepare func(root string, dirs *sts.ServerDirs)) *recvRig {
@@ -60,6 +61,15 @@ func newRecvRig(sources, keys []string, prepare func(root string, dirs *sts.Serv
 	if err := r.app.init(); err != nil {
 		panic(err)
 	}
+	for _, gk := range r.app.server.VerifGateKeepers() {
+		r.made = append(r.made, gk)
+	}
+	factory := r.app.server.GateKeeperFactory
+	r.app.server.GateKeeperFactory = func(source string) sts.GateKeeper {
+		gk := factory(source)
+		r.made = append(r.made, gk)
+		return gk
+	}
 	r.stop = make(chan bool)
 	r.done = make(chan bool, 1)
 	go r.app.server.Serve(r.stop, r.done)
@@ -72,9 +82,13 @@ func newRecvRig(sources, keys []string, prepare func(root string, dirs *sts.Serv
 }
 
 func (r *recvRig) close() {
+	all := append([]sts.GateKeeper{}, r.made...)
 	for _, gk := range r.app.server.VerifGateKeepers() {
+		all = append(all, gk)
+	}
+	for _, gk := range all {
 		if st, ok := gk.(*stage.Stage); ok {
-			st.VerifTeardown()
+			st.VerifTeardown() // idempotent
 		}
 	}
 	r.stop <- true
@@ -192,12 +206,25 @@ func TestC15Auth(t *testing.T) {
 				defer r.close()
 				synctest.Wait()
 				authSource, authKey := "a", "k"
+				// what the receiver knows about the authorised sender in memory only: a file that is
+				// validated and held for a predecessor that never comes, and a file that failed validation
+				for _, up := range []struct{ name, prev, content, hashOf string }{
+					{"held", "never-sent", "HELD DATA", "HELD DATA"}, {"bad", "", "BAD DATA", "something else"},
+				} {
+					meta := []map[string]interface{}{{"n": up.name, "r": "", "p": up.prev, "f": vh.MD5([]byte(up.hashOf)), "t": "1293753600+5", "s": len(up.content), "b": 0, "e": len(up.content)}}
+					mb, _ := json.Marshal(meta)
+					st, _, err := r.do(rawReq{Method: "PUT", Path: "/data?v=1", Headers: map[string]string{"X-STS-SrcName": authSource, "X-STS-Key": authKey, "X-STS-MetaLen": fmt.Sprint(len(mb)), "X-STS-Sep": "/"}, Body: string(mb) + up.content})
+					if err != nil || st != 200 {
+						panic(fmt.Sprintf("harness: upload of %s by the authorised sender: status %d err %v", up.name, st, err))
+					}
+					synctest.Wait()
+				}
 				probe := func() string {
 					var out []string
 					for _, q := range []rawReq{
 						{Method: "GET", Path: "/partials?v=1", Headers: map[string]string{"X-STS-SrcName": authSource, "X-STS-Key": authKey}},
 						{Method: "POST", Path: "/validate?v=1", Headers: map[string]string{"X-STS-SrcName": authSource, "X-STS-Key": authKey, "Content-Type": "application/json"},
-							Body: `[{"n":"f1","t":1293753600},{"n":"probe","t":1293753600}]`},
+							Body: `[{"n":"f1","t":1293753600},{"n":"probe","t":1293753600},{"n":"held","t":1293753600},{"n":"bad","t":1293753600}]`},
 					} {
 						st, body, _ := r.do(q)
 						out = append(out, fmt.Sprintf("%d %s", st, body))
@@ -291,7 +318,7 @@ func TestC15Auth(t *testing.T) {
 			})
 		}
 	}
-	rep.Bound = "source lists {none, [a], [a, b/c]} x key lists {none, [k], [k, l]} x presented source {a, b/c, z, none, A, a/, b, a.*, .*, b/c/.., 'a b'} x presented key {k, l, wrong, none, K, 'k ', .*} x {headers, query string} x 11 route/method pairs (data, data-recovery, validate, partials, static GET/DELETE and wrong methods); reference: the three-line predicate of the statement; refused requests: before/after listing of all receiver directories and an authorised sender's poll + partials answers"
+	rep.Bound = "source lists {none, [a], [a, b/c]} x key lists {none, [k], [k, l]} x presented source {a, b/c, z, none, A, a/, b, a.*, .*, b/c/.., 'a b'} x presented key {k, l, wrong, none, K, 'k ', .*} x {headers, query string} x 11 route/method pairs (data, data-recovery, validate, partials, static GET/DELETE and wrong methods); reference: the three-line predicate of the statement; refused requests: before/after listing of all receiver directories and an authorised sender's poll + partials answers (the sender has a file held for its predecessor and a file that failed validation: known to the receiver in memory only)"
 }
 
 // ---------------------------------------------------------------- C15: requests during start-up recovery
